@@ -117,7 +117,9 @@ class RainbowLoss(Case):
             dz = (self.vmax - self.vmin) / (self.N - 1)
             sup = [self.vmin + k * dz for k in range(self.N)]
             got = [float(x) for x in self._agent.support]
-            if got != sup or self._agent.delta_z != dz:
+            # only the grid is a precondition of the case; the agent's own delta_z is consumed by the real _dqn_loss and is
+            # part of what is decided (a spacing that disagrees with the support shows up in the projection obligations)
+            if got != sup:
                 raise HarnessError(f"support of the real agent is not the exact grid: {got} vs {sup}")
         return self._agent
 
@@ -332,6 +334,8 @@ def all_eq_py(v, x, y):
 
 def cases(tier):
     cs = [RainbowLoss(3, -2, 2), RainbowLoss(3, -1, 3), RainbowLoss(5, -2, 2), RainbowLoss(2, 0, 1, B=2),
+          # supports that do not contain 0 (both bounds of one sign): spacing, offset and clamp must all be relative to v_min
+          RainbowLoss(3, 1, 5), RainbowLoss(3, -5, -1),
           RainbowLearn(2, 0, 1, per=True, nstep=True, combined=True), RainbowLearn(2, 0, 1, per=True, nstep=True, combined=False),
           RainbowLearn(2, 0, 1, per=True, nstep=False, combined=False, B=2), RainbowLearn(2, 0, 1, per=False, nstep=True, combined=True),
           RainbowLearn(2, 0, 1, per=False, nstep=False, combined=False, B=2)]
@@ -339,5 +343,6 @@ def cases(tier):
         # path counts grow quickly: ~2 x 3^(atoms-1) per batch row (squared for batch 2 and for learn() with an n-step batch)
         cs += [RainbowLoss(7, -3, 3), RainbowLoss(9, -4, 4), RainbowLoss(3, -1, 3, B=2), RainbowLoss(5, 0, 4, A=3), RainbowLoss(5, 0, 100),
                RainbowLearn(2, 0, 1, per=False, nstep=True, combined=False),
-               RainbowLearn(3, -2, 2, per=True, nstep=True, combined=True)]
+               RainbowLearn(3, -2, 2, per=True, nstep=True, combined=True),
+               RainbowLoss(5, 1, 5), RainbowLoss(5, -9, -1), RainbowLearn(2, 1, 2, per=True, nstep=True, combined=True)]
     return cs
